@@ -100,6 +100,8 @@ func (c *Core) receive(bp BundleDescriptor) {
 		c.SendStatusReport(bp, bpv7.ReceivedBundle, bpv7.NoInformation)
 	}
 
+	var blockRemoved = false
+
 	for i := len(bp.MustBundle().CanonicalBlocks) - 1; i >= 0; i-- {
 		var cb = &bp.MustBundle().CanonicalBlocks[i]
 
@@ -143,6 +145,18 @@ func (c *Core) receive(bp BundleDescriptor) {
 
 			bp.MustBundle().CanonicalBlocks = append(
 				bp.MustBundle().CanonicalBlocks[:i], bp.MustBundle().CanonicalBlocks[i+1:]...)
+			blockRemoved = true
+		}
+	}
+
+	if blockRemoved {
+		// The bundle was already stored with those blocks. Each retransmission loads the bundle from the store; thus,
+		// the stored bundle must be replaced or the removed blocks would be forwarded nevertheless.
+		if err := c.store.ReplaceBundle(*bp.MustBundle()); err != nil {
+			log.WithFields(log.Fields{
+				"bundle": bp.ID(),
+				"error":  err,
+			}).Warn("Replacing the stored bundle after removing unknown canonical blocks failed")
 		}
 	}
 
